@@ -1,6 +1,6 @@
 /-
   Oracle commands for C19 (chatPrompt):
-    chat <fixed 0|1> <mllama 0|1> <proj 0|1|2> <limit> <style> <tokmode>
+    chat <variant: bit0 = F4 repaired, bit1 = legacy-loop (F4b) repaired> <mllama 0|1> <proj 0|1|2> <limit> <style> <tokmode>
          <L> {<role s|u|a|t|o> <contenthex> <nimgs> {<src> <ok 0|1>}*}*
          <ncosts> <cost>*
       cost[i] (0 ≤ i < L-1) = tokens of the REAL template+tokenizer on system(i) ++ msgs[i:]
@@ -60,9 +60,9 @@ def handle (toks : List String) : Option String :=
       let mode ← nat
       let msgs ← listOf pMsg
       let costs ← listOf nat
-      let cfg : Cfg := ⟨fixed != 0, mllama != 0, proj, limit⟩
+      let cfg : Cfg := ⟨fixed % 2 != 0, mllama != 0, proj, limit⟩
       let cost : Nat → Nat := fun i => costs.getD i 0
-      let rend : List Msg → Bytes := fun l => render style (l.map toRMsg)
+      let rend : List Msg → Bytes := fun l => render (fixed / 2 % 2 != 0) style (l.map toRMsg)
       pure (match chatPrompt cfg cost msgs with
         | .panicEmpty => "panic:empty"
         | .errTooMany => "err:too-many-images"
